@@ -125,7 +125,10 @@ class SequenceIterator(types.Recoverable, Iterator[_T]):
 
   @property
   def state(self) -> ShardConfig:
-    start_index = self._index - self.config.start
+    # The config of a restored iterator already starts at its recorded offset.
+    start_index = (
+        self._index - self.config.start + self.config.state.start_index
+    )
     return dc.replace(self.config.state, start_index=start_index)
 
   def __next__(self) -> _T:
